@@ -19,6 +19,7 @@ import Hx.Spec.Grammar
 import Hx.Parse.Lines
 import Hx.Lemmas.StartGrammar
 import Hx.Lemmas.BlockGrammar
+import Hx.Lemmas.WholeMessage
 namespace Hx
 
 theorem c06_line_iff (be : Backend) (hbe : be.Exact) (multi : Bool) (buf : List Byte)
@@ -42,6 +43,28 @@ theorem c06_line_unique (multi : Bool) {pre mb sp₁ t sp₂ eol rest pre' mb' s
     (e : requestLineBytes pre mb sp₁ t sp₂ v eol ++ rest = requestLineBytes pre' mb' sp₁' t' sp₂' v' eol' ++ rest') :
     pre = pre' ∧ mb = mb' ∧ sp₁ = sp₁' ∧ t = t' ∧ sp₂ = sp₂' ∧ v = v' ∧ eol = eol' ∧ rest = rest' :=
   requestLine_unique multi h h' e
+
+/-- a request is accepted ⇔ request line ⧺ a header block of the block grammar; `n` is the total
+length consumed -/
+theorem c06_accept_iff (be : Backend) (hbe : be.Exact) (cfg : Config) (cap : Nat) (buf : List Byte)
+    (v₀ : ReqVal) (n : Nat) :
+    (reqCore be cfg cap buf v₀).status = .ok n ↔
+      ∃ pre mb sp₁ t sp₂ v eol hb k hs, IsRequestLine cfg.multiReq pre mb sp₁ t sp₂ v eol ∧
+        buf = requestLineBytes pre mb sp₁ t sp₂ v eol ++ hb ∧
+        BlockSpec cfg.reqH cap (requestLineBytes pre mb sp₁ t sp₂ v eol).length 0 hb k hs ∧
+        n = (requestLineBytes pre mb sp₁ t sp₂ v eol).length + k :=
+  reqCore_ok_iff be hbe cfg cap buf v₀ n
+
+/-- and then the fields and headers are exactly those of the decomposition -/
+theorem c06_accept_fields (be : Backend) (hbe : be.Exact) (cfg : Config) (cap : Nat) (buf : List Byte)
+    (v₀ : ReqVal) {pre mb sp₁ t sp₂ eol hb : List Byte} {v k : Nat} {hs : List Hdr}
+    (hl : IsRequestLine cfg.multiReq pre mb sp₁ t sp₂ v eol)
+    (hb' : buf = requestLineBytes pre mb sp₁ t sp₂ v eol ++ hb)
+    (hblk : BlockSpec cfg.reqH cap (requestLineBytes pre mb sp₁ t sp₂ v eol).length 0 hb k hs) :
+    (reqCore be cfg cap buf v₀).hdrs = hs ∧
+    (reqCore be cfg cap buf v₀).val =
+      ⟨some ⟨pre.length, mb⟩, some ⟨pre.length + mb.length + sp₁.length, t⟩, some v⟩ :=
+  reqCore_ok_fields be hbe cfg cap buf v₀ hl hb' hblk
 
 /-- non-vacuity: a concrete request line in the grammar -/
 example : IsRequestLine false [] [0x47, 0x45, 0x54] [SP] [0x2F] [SP] 1 [CR, LF] :=
